@@ -274,7 +274,7 @@ Definition in_i32 (z : Z) : bool := (- 2 ^ 31 <=? z) && (z <? 2 ^ 31).
 Definition int_or_float (exact : Z) (fl : f64) : value :=
   if in_i64 exact then VInt exact else from_float fl.
 
-Definition vadd (l r : value) : res value :=
+Definition vadd_typed (l r : value) : res value :=
   match l, r with
   | VDate d, VDur u => mk_date (d + u)
   | VDur u, VDate d => mk_date (d + u)
@@ -284,7 +284,7 @@ Definition vadd (l r : value) : res value :=
   | _, _ => binary_op fadd l r
   end.
 
-Definition vsub (l r : value) : res value :=
+Definition vsub_typed (l r : value) : res value :=
   match l, r with
   | VDate d, VDur u => mk_date (d - u)
   | VDate a, VDate b => mk_dur (a - b)
@@ -294,7 +294,7 @@ Definition vsub (l r : value) : res value :=
   | _, _ => binary_op fsub l r
   end.
 
-Definition vmul (l r : value) : res value :=
+Definition vmul_typed (l r : value) : res value :=
   match l, r with
   | VDur a, VInt b => if in_i32 b then mk_dur (a * b) else Err
   | VInt a, VDur b => if in_i32 a then mk_dur (b * a) else Err
@@ -302,6 +302,16 @@ Definition vmul (l r : value) : res value :=
   | VInt a, VInt b => Ok (int_or_float (a * b) (fmul (f_of_Z a) (f_of_Z b)))
   | _, _ => binary_op fmul l r
   end.
+
+(** text that holds an integer takes part in [+ - *] as that integer (fix 3ad586e) *)
+Definition int_text (v : value) : value :=
+  match v with
+  | VStr s => match from_string s with VInt i => VInt i | _ => v end
+  | _ => v
+  end.
+Definition vadd (l r : value) : res value := vadd_typed (int_text l) (int_text r).
+Definition vsub (l r : value) : res value := vsub_typed (int_text l) (int_text r).
+Definition vmul (l r : value) : res value := vmul_typed (int_text l) (int_text r).
 
 Definition vdiv (l r : value) : res value :=
   match l, r with
